@@ -239,4 +239,270 @@ theorem slice_eq_pieceTextRe (line : Bytes) (cnt : Nat → Nat → Nat) :
           (slice line s e, cnt s e, (tokFrom line cnt e t).first) :: (tokFrom line cnt e t).rest⟩ (a' + 2) (b' + 2)
         rw [pieceTextRe_succ_succ]
 
+/-! ## 3. the output loop, for any way of rendering a piece -/
+
+/-- the literal specification's loop is an instance of `emitWith` -/
+theorem emit_eq_emitWith (cfg : Cfg) (tok : Tok) (sep : Nat → Bytes) (j : Bytes) :
+    ∀ (l : List BoF), emit cfg tok sep j l = emitWith cfg tok.numFields (pieceText sep tok) j l
+  | [] => rfl
+  | .filler f :: t => by simp only [emit, emitWith, emit_eq_emitWith cfg tok sep j t]
+  | .bound b :: t => by
+    simp only [emit, emitWith, emit_eq_emitWith cfg tok sep j t]
+    rfl
+
+/-- what the specification prints for a bound: the piece, else the bound's own fallback, else the
+    generic one -/
+def specTextWith (opt : Opt) (n : Nat) (piece : Nat → Nat → Bytes) (b : UserBounds) : Option Bytes :=
+  match resolve b n with
+  | some (lo, hi) => some (piece lo hi)
+  | none =>
+    match b.fallback with
+    | some f => some f
+    | none => opt.fallbackOob
+
+/-- one bound of the output loop, followed by the rest `R` of the run -/
+theorem outputBof_bound_with (opt : Opt) (line : Bytes) (fields : List Range) (cwr : Bool)
+    (piece : Nat → Nat → Bytes) (hjson : opt.json = false)
+    (hinb : ∀ (a b : Nat) (_ : a ≤ b) (hb : b < fields.length),
+      (fields[a]'(by omega)).start ≤ fields[b].stop ∧ fields[b].stop ≤ line.length)
+    (hpiece : ∀ (a b : Nat) (_ : a ≤ b) (hb : b < fields.length),
+      maybeReplaceDelimiter (slice line (fields[a]'(by omega)).start fields[b].stop) opt cwr =
+        piece (a + 1) (b + 1))
+    (b : UserBounds) (hz : b.Nonzero) (c : Nat) (hL : b.isLast = true ↔ c = 0) (R : Run) :
+    (outputBof line fields fields.length opt cwr (.bound b)).seq R =
+      match specTextWith opt fields.length piece b with
+      | none => Run.fail
+      | some x =>
+        Run.pre (x ++ (if opt.join && decide (c > 0) then opt.replaceDelimiter.getD opt.delimiter
+          else [])) R := by
+  unfold outputBof specTextWith
+  simp only []
+  rw [tryIntoRange_eq_resolve b fields.length hz]
+  cases hres : resolve b fields.length with
+  | none =>
+    simp only [Option.map_none]
+    cases b.fallback with
+    | some f => simp only [writeMaybeAsJson, hjson]; exact joiner_algebra _ _ _ _ _ _ hL
+    | none =>
+      cases opt.fallbackOob with
+      | some f => simp only [writeMaybeAsJson, hjson]; exact joiner_algebra _ _ _ _ _ _ hL
+      | none => simp [Run.seq, Run.fail]
+  | some p =>
+    obtain ⟨lo, hi⟩ := p
+    have htr : b.tryIntoRange fields.length = some (lo - 1, hi) := by
+      rw [tryIntoRange_eq_resolve b fields.length hz, hres]; rfl
+    have hzl : b.l ≠ .some 0 := by
+      intro h0
+      have := hz.1
+      rw [h0] at this
+      exact this rfl
+    obtain ⟨h1, h2⟩ := tryIntoRange_bounds b _ _ _ hzl htr
+    obtain ⟨h3, h4⟩ := resolve_some hres
+    have hs : lo - 1 < fields.length := by omega
+    have he : hi - 1 < fields.length := by omega
+    have hin := hinb (lo - 1) (hi - 1) (by omega) he
+    have htext := hpiece (lo - 1) (hi - 1) (by omega) he
+    have e1 : lo - 1 + 1 = lo := by omega
+    have e2 : hi - 1 + 1 = hi := by omega
+    rw [e1, e2] at htext
+    simp only [Option.map_some, List.getElem?_eq_getElem hs, List.getElem?_eq_getElem he]
+    rw [if_pos hin, htext]
+    simp only [writeMaybeAsJson, hjson]
+    exact joiner_algebra _ _ _ _ _ _ hL
+
+/-- **the output loop is `emitWith`**, whatever the pieces are -/
+theorem outputLoop_eq_emitWith (opt : Opt) (line : Bytes) (fields : List Range) (cwr : Bool)
+    (piece : Nat → Nat → Bytes) (hjson : opt.json = false)
+    (hinb : ∀ (a b : Nat) (_ : a ≤ b) (hb : b < fields.length),
+      (fields[a]'(by omega)).start ≤ fields[b].stop ∧ fields[b].stop ≤ line.length)
+    (hpiece : ∀ (a b : Nat) (_ : a ≤ b) (hb : b < fields.length),
+      maybeReplaceDelimiter (slice line (fields[a]'(by omega)).start fields[b].stop) opt cwr =
+        piece (a + 1) (b + 1)) :
+    ∀ (bofs : List BoF), AllNonzero bofs → LastMarked bofs →
+      outputLoop line fields fields.length opt cwr bofs =
+        emitWith (cfgOf opt) fields.length piece (opt.replaceDelimiter.getD opt.delimiter) bofs
+  | [], _, _ => rfl
+  | .filler f :: t, hz, hL => by
+    have ih := outputLoop_eq_emitWith opt line fields cwr piece hjson hinb hpiece t
+      (fun b hb => hz b (List.mem_cons_of_mem _ hb)) hL
+    simp only [outputLoop, outputBof, emitWith, Run.seq_ok, ih]
+  | .bound b :: t, hz, hL => by
+    have ih := outputLoop_eq_emitWith opt line fields cwr piece hjson hinb hpiece t
+      (fun b hb => hz b (List.mem_cons_of_mem _ hb)) hL.2
+    have hb := outputBof_bound_with opt line fields cwr piece hjson hinb hpiece b
+      (hz b (List.mem_cons_self ..)) (countBounds t) hL.1
+      (outputLoop line fields fields.length opt cwr t)
+    simp only [outputLoop]
+    rw [hb, ih]
+    unfold specTextWith
+    simp only [emitWith, cfgOf, hjson]
+    cases resolve b fields.length with
+    | some p => simp
+    | none =>
+      cases b.fallback with
+      | some f => simp
+      | none => cases opt.fallbackOob <;> simp
+
+/-- the specification never looks at `is_last` -/
+theorem emitWith_eraseLast (cfg : Cfg) (n : Nat) (piece : Nat → Nat → Bytes) (j : Bytes) :
+    ∀ (l : List BoF), emitWith cfg n piece j (l.map eraseLast) = emitWith cfg n piece j l
+  | [] => rfl
+  | .filler f :: t => by
+    simp only [List.map_cons, eraseLast, emitWith, emitWith_eraseLast cfg n piece j t]
+  | .bound b :: t => by
+    simp only [List.map_cons, eraseLast, emitWith, emitWith_eraseLast cfg n piece j t,
+      countBounds_map_eraseLast]
+    rfl
+
+/-- without `-j` the joiner is never printed -/
+theorem emitWith_joiner (cfg : Cfg) (n : Nat) (piece : Nat → Nat → Bytes) (j j' : Bytes)
+    (h : cfg.join = false ∨ j = j') :
+    ∀ (l : List BoF), emitWith cfg n piece j l = emitWith cfg n piece j' l := by
+  rcases h with h | h
+  · intro l
+    induction l with
+    | nil => rfl
+    | cons x t ih =>
+      cases x with
+      | filler f => simp only [emitWith, ih]
+      | bound b => simp only [emitWith, ih, h, Bool.false_and, Bool.false_eq_true, if_false]
+  · subst h; intro l; rfl
+
+/-- everything after the ranges are known (no `--json`, field mode, no `-p`), for any rendering of
+    the pieces: the tail of the specification -/
+theorem emitRecord_eq_emitWith (opt : Opt) (line : Bytes) (fields : List Range)
+    (piece : Nat → Nat → Bytes) (hjson : opt.json = false)
+    (hty : opt.boundsType = .fields ∨ opt.boundsType = .lines)
+    (hinb : ∀ (a b : Nat) (_ : a ≤ b) (hb : b < fields.length),
+      (fields[a]'(by omega)).start ≤ fields[b].stop ∧ fields[b].stop ≤ line.length)
+    (hpiece : ∀ (a b : Nat) (_ : a ≤ b) (hb : b < fields.length),
+      maybeReplaceDelimiter (slice line (fields[a]'(by omega)).start fields[b].stop) opt false =
+        piece (a + 1) (b + 1))
+    (hz : AllNonzero opt.bounds.list) (hL : LastMarked opt.bounds.list) :
+    emitRecord line fields opt false [opt.eol.byte] =
+      if opt.onlyDelimited && fields.length == 1 then Run.empty
+      else
+        if opt.complement && countBounds (specBofs opt fields.length) == 0 then Run.fail
+        else
+          (emitWith (cfgOf opt) fields.length piece (opt.replaceDelimiter.getD opt.delimiter)
+            (specBofs opt fields.length)).seq (Run.ok [opt.eol.byte]) := by
+  rw [emitRecord_fields _ _ _ _ hjson hty]
+  have hloop := outputLoop_eq_emitWith opt line fields false piece hjson hinb hpiece
+  by_cases hs : (opt.onlyDelimited && fields.length == 1) = true
+  · rw [if_pos hs, if_pos hs]
+  · rw [if_neg hs, if_neg hs]
+    unfold specBofs
+    cases hc : opt.complement with
+    | false =>
+      simp only [Bool.false_and, Bool.false_eq_true, if_false]
+      rw [hloop _ hz hL]
+    | true =>
+      simp only [if_true, Bool.true_and]
+      unfold complementList
+      simp only []
+      rw [flatMap_complementBof_eq _ _ hz, boundsOnly_isEmpty_iff]
+      by_cases h0 : (countBounds (mapBounds (complementBound · fields.length) opt.bounds.list) == 0) = true
+      · rw [if_pos h0, if_pos h0]
+      · rw [if_neg h0, if_neg h0]
+        unfold fromVec
+        simp only []
+        cases hm : markLast (mapBounds (complementBound · fields.length) opt.bounds.list) with
+        | none =>
+          have := countBounds_eq_zero_of_markLast_none _ hm
+          simp [this] at h0
+        | some l' =>
+          simp only []
+          have he := markLast_eraseLast _ _ hm
+          have hnz := allNonzero_of_eraseLast_eq he (mapBounds_complement_nonzero _ _ hz)
+          have hlm := markLast_lastMarked _ _ (mapBounds_complement_noneMarked _ _) hm
+          rw [hloop l' hnz hlm, ← emitWith_eraseLast _ _ _ _ l', he, emitWith_eraseLast]
+
+/-! ## 4. `cut_str` with a regex delimiter, passes made explicit -/
+
+/-- `trim_regex` is the specification's `trimRe`, for any list of matches -/
+theorem trimRegex_eq_trimRe (line : Bytes) (k : TrimKind) (ms : List (Nat × Nat)) :
+    trimRegex line k ms = trimRe line k ms := by
+  unfold trimRegex trimRe slice
+  simp only []
+  rw [List.drop_take]
+  have hl : (if k = .both ∨ k = .left then
+        match ms.head? with
+        | some (s, e) => if s = 0 then e else 0
+        | none => 0
+      else 0) =
+      (if k = .both ∨ k = .left then
+        match ms.head? with
+        | some (0, e) => e
+        | _ => 0
+      else 0) := by
+    split
+    · cases ms.head? with
+      | none => rfl
+      | some p =>
+        obtain ⟨s, e⟩ := p
+        cases s with
+        | zero => simp
+        | succ s' => simp
+    · rfl
+  rw [hl]
+  generalize (if k = .both ∨ k = .left then
+        match ms.head? with
+        | some (0, e) => e
+        | _ => 0
+      else 0) = l
+  congr 1
+  split
+  · cases ms.getLast? with
+    | none => rfl
+    | some p =>
+      obtain ⟨s, e⟩ := p
+      simp only []
+      split
+      · omega
+      · rfl
+  · rfl
+
+/-- the record after `-t`, regex delimiter -/
+def trimmedRe (opt : Opt) (bag : RegexBag) (line : Bytes) : Bytes :=
+  match opt.trim with
+  | some k => trimRe line k (bag.greedy line)
+  | none => line
+
+/-- the ranges `cut_str` builds from the matches -/
+def fieldsRe (opt : Opt) (bag : RegexBag) (line' : Bytes) : List Range :=
+  rangesBetweenMatches line'.length 0 ((if opt.greedyDelimiter then bag.greedy else bag.normal) line')
+
+set_option linter.unusedSimpArgs false in
+/-- `cut_str` with a regex delimiter and no `-p`, passes made explicit -/
+theorem cutStrCore_regex (line : Bytes) (opt : Opt) (eol : Bytes) (bag : RegexBag)
+    (hre : opt.regexBag = some bag) (hp : opt.compressDelimiter = false)
+    (hty : opt.boundsType = .fields ∨ opt.boundsType = .lines) :
+    (cutStrCore line opt eol).1 =
+      if opt.join && opt.replaceDelimiter.isNone then Run.fail
+      else if (trimmedRe opt bag line).isEmpty then
+        (if !opt.onlyDelimited then Run.ok eol else Run.empty)
+      else emitRecord (trimmedRe opt bag line) (fieldsRe opt bag (trimmedRe opt bag line)) opt false eol := by
+  have htrim : trimOf opt line = trimmedRe opt bag line := by
+    unfold trimOf trimmedRe
+    rw [hre]
+    cases opt.trim with
+    | none => rfl
+    | some k => exact trimRegex_eq_trimRe _ _ _
+  rw [cutStrCore_eq, htrim]
+  generalize trimmedRe opt bag line = line'
+  simp only [hre, hp, Option.isSome_some, Bool.true_and, Bool.false_and, Bool.false_eq_true, if_false]
+  by_cases hj : (opt.join && opt.replaceDelimiter.isNone) = true
+  · rw [if_pos hj, if_pos hj]
+  · rw [if_neg hj, if_neg hj]
+    unfold afterTrim
+    by_cases he : line'.isEmpty = true
+    · rw [if_pos he, if_pos he]
+    · rw [if_neg he, if_neg he]
+      have hf : engineFields opt line' opt.delimiter true = fieldsRe opt bag line' := by
+        unfold engineFields fieldsRe fillWithFieldsLocationsUsingRegex
+        rcases hty with hty | hty <;>
+          simp only [hre, hty, he, Bool.false_eq_true, if_false, Bool.false_and, reduceCtorEq,
+            decide_false]
+      simp only [hp, hre, Bool.false_and, Bool.false_eq_true, if_false, Option.isSome_some, hf]
+
 end Tuc
